@@ -169,25 +169,29 @@ def check_case(case, opts):
             i = img.paths[p]
             return (i.blocks_start if any(i.block_sizes) else None, tuple(i.block_sizes), i.frag_idx, i.frag_off if i.frag_idx != sqfsimg.NOFRAG else None)
         tail_of = {p: (c[len(c) // B * B:] if len(c) % B else b"") for p, c in contents.items()}
+        run_of = {p: c[:len(c) // B * B] for p, c in contents.items()}
         for c, ps in byc.items():
             if len(ps) < 2 or len(c) == 0:
                 continue
             locs = {p: loc_of(p) for p in ps}
-            # files outside the group whose tail end has the same bytes as these (short) files are sharing partners as well
-            ext = [q for q in contents if q not in ps and len(c) < B and tail_of[q] == c]
-            if not any(p in flagged for p in ps + ext):
+            # Block run and tail end are deduplicated independently, and against everything packed so far: the blocks of a file may be
+            # found at a twin, its tail at any file with the same tail bytes (a one byte file, the forced copy of a dont_deduplicate
+            # file, ...).  Partners outside the group: files with the same tail bytes / the same block run.
+            tpart = [q for q in contents if q not in ps and tail_of[ps[0]] and tail_of[q] == tail_of[ps[0]]]
+            bpart = [q for q in contents if q not in ps and run_of[ps[0]] and run_of[q] == run_of[ps[0]]]
+            if not any(p in flagged for p in ps + tpart + bpart):
                 if len(set(locs.values())) > 1:
                     raise Violation("identical files %r do not share storage: %r" % (ps[:3], sorted(set(locs.values()), key=repr)[:3]), None, sig="dedup-missing")
                 continue
             # Files with per-file flags (dont_deduplicate, dont_compress, dont_fragment, nosparse) are legitimately stored on their own
-            # or in another form; a later unflagged twin may share with them or with an unflagged one.  So among the unflagged files
-            # of a group at most one (the first one packed in its storage form) may sit at a location nobody else uses.
-            fl = {q: (img.paths[q].frag_idx, img.paths[q].frag_off) for q in ext if img.paths[q].frag_idx != sqfsimg.NOFRAG}
-            # Block run and tail end are deduplicated independently (the blocks of a file may be found at an unflagged twin, its tail at
-            # the copy a dont_deduplicate twin was forced to store), so the two parts are judged separately.
-            lonely_b = [p for p in ps if p not in flagged and locs[p][0] is not None and not any(q != p and locs[q][:2] == locs[p][:2] for q in ps)]
+            # or in another form; a later unflagged file may share with them or with an unflagged one.  So among the unflagged files
+            # of a group at most one (the first one packed in its storage form) may sit at a location nobody else uses - per part.
+            tl = {(img.paths[q].frag_idx, img.paths[q].frag_off) for q in tpart if img.paths[q].frag_idx != sqfsimg.NOFRAG}
+            bl = {loc_of(q)[:2] for q in bpart}
+            lonely_b = [p for p in ps if p not in flagged and locs[p][0] is not None and not any(q != p and locs[q][:2] == locs[p][:2] for q in ps)
+                        and locs[p][:2] not in bl]
             lonely_t = [p for p in ps if p not in flagged and locs[p][2] != sqfsimg.NOFRAG and not any(q != p and locs[q][2:] == locs[p][2:] for q in ps)
-                        and not (locs[p][2:] in fl.values())]
+                        and locs[p][2:] not in tl]
             for lonely, part in ((lonely_b, "blocks"), (lonely_t, "tail ends")):
                 if len(lonely) > 1:
                     raise Violation("identical files %r do not share their %s: %r" % (sorted(lonely)[:3], part, sorted((locs[p] for p in lonely), key=repr)[:3]), None, sig="dedup-missing")
